@@ -30,7 +30,7 @@ namespace {
 
 const char *k_tmpl[] = {"harm_fixed", "harm_cmove", "harm_kmove", "walls_fixed", "linear_fixed", "meta_grid", "abf", "histogram", "harm_cmove", "harm_fixed"};
 
-struct CvOut { std::string name; bool periodic = false; bool vel = false, ft = false, fa = false; bool runave = false; int ra_len = 0, ra_stride = 1; };
+struct CvOut { std::string name; bool periodic = false; bool vel = false, ft = false, fa = false; bool runave = false; int ra_len = 0, ra_stride = 1; bool cf = false, cf_norm = false; int cf_len = 0, cf_stride = 1; std::string cf_with; };
 
 J gen(uint64_t seed, bool thorough) {
   Rng r(seed, 19);
@@ -46,7 +46,6 @@ J gen(uint64_t seed, bool thorough) {
   J sc = J::obj();
   J e = J::obj(); ec.to_json(e); sc["engine"] = e;
   int freq = (int)r.range(1, 5);
-  sc["config"] = global_config(freq, 0, false);
   sc["freq"] = freq;
   sc["T"] = (long long)T;
   static const char *kinds[] = {"distance", "distanceZ", "dihedral", "angle", "distanceXY"};
@@ -65,10 +64,24 @@ J gen(uint64_t seed, bool thorough) {
     int len = (int)r.range(2, 6), stride = (int)r.range(1, 3);
     if (ra) c.extra += "  runAve on\n  runAveLength " + std::to_string(len) + "\n  runAveStride " + std::to_string(stride) + "\n";
     o["vel"] = vel; o["ft"] = ft; o["fa"] = fa; o["runave"] = ra; o["ra_len"] = len; o["ra_stride"] = stride;
+    bool cf = !c.periodic() && r.chance(0.3);
+    int cf_len = (int)r.range(2, 6), cf_stride = (int)r.range(1, 3); bool cf_norm = r.chance(0.5);
+    // (the partner of a cross-correlation must already exist when this variable is defined: an earlier non-periodic one)
+    std::string cf_with; if (cf && i > 0 && r.chance(0.3)) { for (int q = 0; q < i; q++) if (!cvs[(size_t)q].periodic()) cf_with = cvs[(size_t)q].name; }
+    if (cf) { c.extra += "  corrFunc on\n  corrFuncType coordinate\n  corrFuncLength " + std::to_string(cf_len) + "\n  corrFuncStride " + std::to_string(cf_stride) + "\n  corrFuncNormalize " + (cf_norm ? "on" : "off") + "\n"; if (!cf_with.empty()) c.extra += "  corrFuncWithColvar " + cf_with + "\n"; }
+    o["cf"] = cf; o["cf_len"] = cf_len; o["cf_stride"] = cf_stride; o["cf_norm"] = cf_norm; o["cf_with"] = cf_with;
     jcv.push(o); cvs.push_back(c); ranges.push_back({lo, hi}); cvtext += c.config();
-    sig += std::string("C") + (vel ? "v" : "") + (ft ? "t" : "") + (fa ? "a" : "") + (ra ? "R" : "");
+    sig += std::string("C") + (vel ? "v" : "") + (ft ? "t" : "") + (fa ? "a" : "") + (ra ? "R" : "") + (cf ? (cf_with.empty() ? "K" : "X") : "");
   }
   sc["cvs"] = cvtext; sc["cvout"] = jcv;
+  {
+    // the correlation function is only written together with the periodic restart file: give the run a restart frequency
+    // that every corrFuncStride divides (the library insists on it)
+    long R = 0; for (auto const &o : jcv.a) if (o.at("cf").as_bool()) { long st = (long)o.at("cf_stride").as_int(); R = R ? R * st / std::__gcd(R, st) : st; }
+    if (R) R *= r.range(1, 3);
+    sc["restart_freq"] = (long long)R;
+    sc["config"] = global_config(freq, (int)R, false);
+  }
   int nbias = 0;
   auto mk_bias = [&](J &op) {
     std::string t, name = "b" + std::to_string(nbias++);
@@ -130,7 +143,7 @@ RunResult run(J const &plan) {
   scenario_from_json(sc, ec, config, T);
   long freq = (long)sc.at("freq").as_int(1);
   std::vector<CvOut> cvo;
-  for (auto const &o : sc.at("cvout").a) { CvOut c; c.name = o.at("name").as_str(); c.periodic = o.at("periodic").as_bool(); c.vel = o.at("vel").as_bool(); c.ft = o.at("ft").as_bool(); c.fa = o.at("fa").as_bool(); c.runave = o.at("runave").as_bool(); c.ra_len = (int)o.at("ra_len").as_int(); c.ra_stride = (int)o.at("ra_stride").as_int(); cvo.push_back(c); }
+  for (auto const &o : sc.at("cvout").a) { CvOut c; c.name = o.at("name").as_str(); c.periodic = o.at("periodic").as_bool(); c.vel = o.at("vel").as_bool(); c.ft = o.at("ft").as_bool(); c.fa = o.at("fa").as_bool(); c.runave = o.at("runave").as_bool(); c.ra_len = (int)o.at("ra_len").as_int(); c.ra_stride = (int)o.at("ra_stride").as_int(); c.cf = o.at("cf").as_bool(); c.cf_norm = o.at("cf_norm").as_bool(); c.cf_len = (int)o.at("cf_len").as_int(); c.cf_stride = (int)o.at("cf_stride").as_int(); c.cf_with = o.at("cf_with").as_str(); cvo.push_back(c); }
   SimRun sim(1);
   std::string prefix = "/simfs/w0/out";
   std::unique_ptr<Engine> e(new Engine(ec));
@@ -142,6 +155,8 @@ RunResult run(J const &plan) {
   std::map<std::string, std::map<std::string, std::vector<std::pair<long, double>>>> series_by_prefix;
   long last_step = -1; bool first_of_instance = true;
   std::set<std::string> errored;
+  std::map<std::string, long> first_step_of, last_step_of;
+  long const restart_freq = (long)sc.at("restart_freq").as_int(0);
   std::map<std::string, double> prev_val; bool have_prev = false;
   long instance_first_step = 0;
   std::string wpre = prefix;
@@ -151,6 +166,8 @@ RunResult run(J const &plan) {
       // a step that raises an error (e.g. the restart consistency test tripping over a variable that was asleep when the state was
       // written — C13 finding) aborts the calculation half-way: what such a run writes is not judged
       if (r.err) { if (!errored.count(wpre)) res.counters["probe.instances_with_step_errors"]++; errored.insert(wpre); }
+      if (!first_step_of.count(wpre)) first_step_of[wpre] = step;
+      last_step_of[wpre] = step;
       Row row; row.step = step; row.repeated = step == last_step; row.first_of_instance = first_of_instance;
       size_t k = 0;
       for (colvar *cv : *ep->colvars->variables()) {
@@ -236,7 +253,7 @@ RunResult run(J const &plan) {
   add_steps(res, *e);
   e.reset();
   // ---- the files ----
-  long lines_checked = 0, values_checked = 0, label_lines = 0, runave_lines = 0;
+  long lines_checked = 0, values_checked = 0, label_lines = 0, runave_lines = 0, corr_points = 0;
   for (auto const &pre : prefixes) {
     if (res.violation) break;
     if (errored.count(pre)) continue;
@@ -320,18 +337,55 @@ RunResult run(J const &plan) {
       }
       if (!res.violation && q < due.size()) res.fail("running_average", "line_missing", c.name + ": " + std::to_string(due.size() - q) + " lines missing, first for step " + std::to_string(due[q].first));
     }
+    // time-correlation functions (coordinate type): C(t) = < xi_i(t0) xi_j(t0 + t) >, t = 0, s, 2s, ... L s
+    for (auto const &c : cvo) {
+      if (res.violation || !c.cf) continue;
+      auto const &sx = series_by_prefix[pre][c.name];
+      auto const &sy = c.cf_with.empty() ? sx : series_by_prefix[pre][c.cf_with];
+      if (sx.size() != sy.size()) continue;
+      // sampled evaluations: all but the very first; asleep ones are not analysed
+      std::vector<std::pair<double, double>> smp; std::vector<long> smp_rel; bool started = false, bad = false;
+      for (size_t i = 0; i < sx.size(); i++) { if (std::isnan(sx[i].second) || std::isnan(sy[i].second)) { if (started) bad = true; continue; } if (!started) { started = true; continue; } smp.push_back({sx[i].second, sy[i].second}); smp_rel.push_back(sx[i].first); }
+      if (bad) continue;   // (a variable that slept in the middle: its history has a hole)
+      int L = c.cf_len, st = c.cf_stride;
+      std::vector<double> acc((size_t)L + 1, 0.0); long frames = 0;
+      // what the file holds was accumulated up to the last step at which the restart file was written
+      long cutoff = -1; if (restart_freq > 0) { long lastm = (last_step_of[pre] / restart_freq) * restart_freq; if (lastm > first_step_of[pre]) cutoff = lastm - first_step_of[pre]; }
+      for (size_t n = 0; n < smp.size(); n++) {
+        if (smp_rel[n] > cutoff) break;
+        if ((long)n - (long)L * st < 0) continue;                       // a full row of earlier values at this phase is needed
+        for (int j = 0; j <= L; j++) acc[(size_t)j] += smp[n - (size_t)(j * st)].first * smp[n].second;   // xi_i at the earlier time, xi_j now
+        frames++;
+      }
+      std::string ct; bool have = fs().get(pre + "." + c.name + ".corrfunc.dat", ct);
+      std::string kind = c.cf_with.empty() ? "auto" : "cross";
+      if (!have) { if (frames > 0) res.fail("correlation_function", "file_missing/" + kind, pre.substr(pre.rfind('/') + 1) + "." + c.name + ".corrfunc.dat does not exist although " + std::to_string(frames) + " frames were due"); continue; }
+      std::istringstream cs(ct); int j = 0;
+      while (std::getline(cs, line) && !res.violation) {
+        if (line.empty() || line[0] == '#') continue;
+        std::istringstream ls(line); long lag; double v; if (!(ls >> lag >> v)) { res.fail("correlation_function", "unreadable_line", line); break; }
+        if (j > L) { res.fail("correlation_function", "surplus_line/" + kind, c.name + ": more than " + std::to_string(L + 1) + " points"); break; }
+        if (lag != (long)j * st) { res.fail("correlation_function", "lag/" + kind, c.name + ": point " + std::to_string(j) + " is labelled " + std::to_string(lag) + ", stride " + std::to_string(st)); break; }
+        double want = frames ? acc[(size_t)j] / (double)frames : 0.0; if (c.cf_norm && frames) want = acc[(size_t)j] / acc[0];
+        if (frames && !close_enough(v, want, 1e-10, 1e-12)) { res.fail("correlation_function", std::string("value/") + kind + (j == 0 ? "/zero_lag" : ""), c.name + (c.cf_with.empty() ? "" : " with " + c.cf_with) + ": C(" + std::to_string(lag) + ") written " + fmt_double(v) + ", average of xi_i(t0) xi_j(t0+t) over " + std::to_string(frames) + " frames " + fmt_double(want)); break; }
+        j++; corr_points++;
+      }
+      if (!res.violation && frames > 0 && j != L + 1) res.fail("correlation_function", "point_count/" + kind, c.name + ": " + std::to_string(j) + " points written, " + std::to_string(L + 1) + " expected");
+    }
   }
   sim.finish(res);
   res.counters["probe.traj_lines_checked"] += lines_checked;
   res.counters["probe.traj_values_checked"] += values_checked;
   res.counters["probe.label_lines"] += label_lines;
   res.counters["probe.runave_lines_checked"] += runave_lines;
+  res.counters["probe.corrfunc_points_checked"] += corr_points;
   res.nontrivial = lines_checked > 0;
   res.class_hash = fnv_u64((uint64_t)freq, fnv_str(sc.at("template").as_str(), 19));
   {
     std::set<std::string> ts; for (auto const &op : plan.at("ops").a) if (op.at("op").as_str() == "addbias") ts.insert(op.at("tmpl").as_str());
     for (auto const &t : ts) res.features += (res.features.empty() ? "" : "+") + t;
     for (auto const &c : cvo) { if (c.runave) { res.features += "+runave"; break; } }
+    for (auto const &c : cvo) { if (c.cf) { res.features += c.cf_with.empty() ? "+corrfunc" : "+crosscorr"; break; } }
   }
   uint64_t fp = 1469598103934665603ULL; fp = fnv_u64((uint64_t)lines_checked, fp); fp = fnv_u64((uint64_t)values_checked, fp);
   res.fingerprint = fnv_u64(fp, res.fingerprint);
@@ -345,7 +399,7 @@ Property make() {
            "with a bias defined or deleted, or the instance stopped and restarted under a new output prefix, between segments; non-trivial = at least one trajectory line checked; distinct = hash of (variables' flags, biases, segmentation, frequency)";
   p.assumptions = {"the line of a step that is evaluated twice (first step of a later run) is due twice, once per run; its velocity column is not checked",
                    "energies of biases whose configuration does not ask for outputEnergy are accepted as optional columns",
-                   "centre schedule and work integral are checked for the continuous moving harmonic restraint on a non-periodic variable; running averages for non-periodic variables; correlation functions are not checked"};
+                   "centre schedule and work integral are checked for the continuous moving harmonic restraint on a non-periodic variable; running averages for non-periodic variables; velocity and P2 correlation functions are not checked"};
   p.real_components = {"colvarmodule::write_traj_files/write_traj_label/write_traj", "colvar::write_traj(_label), calc_runave", "colvarbias*::write_traj(_label)", "config_changed label refresh", "output streams of the proxy"};
   p.stub_components = {"MD engine (kinematic)", "file system (sim::FS)"};
   p.gen = gen; p.run = run;
